@@ -92,7 +92,7 @@ func (t *IterableType) IsAssignable(o px.Type, g px.Guard) bool {
 	case *stringType, *vcStringType, *scStringType:
 		et = OneCharStringType
 	case *TupleType:
-		return allAssignableTo(o.types, t.typ, g)
+		return tupleAssignableTo(o, t.typ, g)
 	default:
 		return false
 	}
